@@ -217,16 +217,16 @@ func ToCommandLine(wf WireFormat, resolveIds bool) (rule string, err error) {
 		} else if len(r.arch) > 0 && r.arch != "b64" {
 			arch = r.arch
 		}
-		syscallTable, ok := auparse.AuditSyscalls[arch]
-		if !ok {
-			return "", fmt.Errorf("no syscall table for arch %s", arch)
-		}
+		// Syscalls without a name (or on an arch without a table) are listed
+		// by number, which is how they must have been given.
+		syscallTable := auparse.AuditSyscalls[arch]
 		list := make([]string, len(r.syscalls))
 		for idx, syscallID := range r.syscalls {
-			list[idx], ok = syscallTable[int(syscallID)]
+			name, ok := syscallTable[int(syscallID)]
 			if !ok {
-				return "", fmt.Errorf("syscall %d not found for arch %s", syscallID, arch)
+				name = strconv.FormatUint(uint64(syscallID), 10)
 			}
+			list[idx] = name
 		}
 
 		arguments = append(arguments, "-S", strings.Join(list, ","))
